@@ -4,6 +4,7 @@
 package c01
 
 import (
+	"sort"
 	"strings"
 	"encoding/json"
 	"fmt"
@@ -65,7 +66,23 @@ func models(c *vf.Ctx) []*chain.Model {
 			mc.H += 3
 		}
 		ms = append(ms, mc)
+		// transaction combinatorics: one setup block, then every ordered pair (thorough: triple) of actions merged into
+		// ONE transaction
+		mm := &chain.Model{Name: "merged", Spec: sp, Opt: opt, Menu: chain.MergedMenu, H: 8, D: 2, K: 1, R: 0}
+		if !c.Quick() {
+			mm.Menu = chain.MergedMenu3
+		}
+		if sp.Name == "mixed" {
+			mm.SkipStart = 3
+			mm.H += 3
+		}
+		ms = append(ms, mm)
 	}
+	// the small combinatorics models first: under a loaded machine the budget must not starve them
+	sort.SliceStable(ms, func(i, j int) bool {
+		small := func(m *chain.Model) bool { return m.Name == "combo" || m.Name == "merged" }
+		return small(ms[i]) && !small(ms[j])
+	})
 	return ms
 }
 
@@ -134,6 +151,8 @@ func replay(c *vf.Ctx, raw json.RawMessage) {
 			return chain.AlphaV2Contracts
 		case "combo":
 			return chain.ComboMenu
+		case "merged":
+			return chain.MergedMenu3
 		}
 		return nil
 	}, "C01", chain.Options{CheckForest: true, CheckLedger: true, CheckSupply: true, CheckProofs: true})
